@@ -166,6 +166,9 @@ func Run(c *ev.Ctx) {
 	s3 := cmdlib.SessionSpec{Name: "s3", Node: "n2", Behavior: structs.SessionKeysRelease, SessName: "lockname"}
 	s4 := cmdlib.SessionSpec{Name: "s4", Node: "n1", Behavior: structs.SessionKeysDelete, NodeChecks: []string{"c1"}} // shares c1 with s1
 
+	// bound to a check of type "session", which may be critical while the session lives; deleting the check ends it
+	s5 := cmdlib.SessionSpec{Name: "s5", Node: "n2", Behavior: structs.SessionKeysDelete, NodeChecks: []string{"sessck"}}
+
 	lockOps := map[string]cmdlib.KVSpec{}
 	var alpha []world.Op
 	keys := []string{"a", "a/b"}
@@ -185,6 +188,11 @@ func Run(c *ev.Ctx) {
 		alpha = append(alpha, cmdlib.KVSpec{Verb: api.KVSet, Key: k, Val: "w", Sess: "s1"}.Op(), cmdlib.KVSpec{Verb: api.KVSet, Key: k, Val: "w", Sess: "s9"}.Op(),
 			cmdlib.KVSpec{Verb: api.KVCAS, Key: k, Val: "w", Sess: "s9", Idx: cmdlib.IdxZero, UseIdx: true}.Op(),
 			cmdlib.Txn(cmdlib.KVSpec{Verb: api.KVSet, Key: k, Val: "w", Sess: "s9"}.TxnOp()))
+	}
+	{
+		sp := cmdlib.KVSpec{Verb: api.KVLock, Key: "a", Val: "x", Sess: "s5"}
+		lockOps[sp.Name()] = sp
+		alpha = append(alpha, sp.Op(), s5.Create(), cmdlib.SessionDestroy("s5"), cmdlib.Txn(cmdlib.TxnCheck(api.CheckDelete, "n2", sessCk, 0)))
 	}
 	alpha = append(alpha, s1.Create(), s2.Create(), s3.Create(), s4.Create(), cmdlib.SessionDestroy("s1"), cmdlib.SessionDestroy("s2"), cmdlib.SessionDestroy("s3"), cmdlib.SessionDestroy("s4"))
 	alpha = append(alpha,
@@ -222,6 +230,7 @@ func Run(c *ev.Ctx) {
 			cmdlib.PQSet("q1", "q-one", "s1", "web"), cmdlib.PQSet("q2", "q-two", "s2", "web")),
 		append(append([]world.Op{}, base...), s3.Create(), lock("a", "s3"), s1.Create(), lock("a/b", "s1")),
 		append(append([]world.Op{}, base...), s1.Create(), s4.Create(), lock("a", "s1"), lock("a/b", "s4")),
+		append(append([]world.Op{}, base...), s5.Create(), lock("a", "s5"), cmdlib.PQSet("q1", "q-one", "s5", "web")),
 	}
 	depth := 3
 	if !quick {
